@@ -146,6 +146,10 @@ func viewOf(b []byte, s string, p int) bool {
 // disjointFromTail: the elements of v do not overlap the spare capacity b[len(b):cap(b)].
 func disjointFromTail(v, b any) bool { return true }
 
+// localBool: the value of a boolean local of the function under contract at the point the clause
+// is evaluated (interpreted by the verifier only).
+func localBool(name string) bool { return true }
+
 // arg: in a `//@ callsite f: e` assertion, the i-th argument of the call to f.
 func arg[T any](i int) T { var z T; return z }
 
